@@ -224,6 +224,33 @@ def mpls_main_loop(self):
 
 
 # --------------------------------------------------------------------------------------------- CfER
+@contract('droop.rules.cfer.Rule.count', props=['C01', 'C09'], site_props=['C02', 'C04', 'C06', 'C07'])
+def cfer_count(self: 'any_rule'):
+    "CfER (fixed-point arithmetic): counter-level contract"
+    E = self.E
+    requires(count_entry(E))
+    ensures(ghost('nH') == 0, name='every candidate is decided: nobody is left hopeful')
+    ensures(ghost('nP') == 0, name='no transfer is left pending')
+    ensures(ghost('nW') == old(ghost('nW')), name='withdrawn candidates never change')
+    ensures(ghost('nE') >= E.electionProfile.nSeats, name='the seats are filled (W2)')
+    modifies_all(Candidate, 'state', 'pending', 'vote')
+    modifies_all(Ballot, 'index', 'weight')
+    modifies(E, 'quota', 'exhausted', 'round', 'surplus')
+    modifies_ghost('nH', 'nE', 'nD', 'nP', 'nlog', 'lasttag', 'lastmsg')
+
+
+@loops('droop.rules.cfer.Rule.count', anchor='while#1')
+def cfer_main_loop(self):
+    E = self.E
+    invariant(forall('ref:droop.candidate.Candidate',
+                     lambda c: implies(and_(in_election(c), c.state == 'elected', truthy(c.pending)), c.vote > E.quota)))
+    invariant(E.quota > E.V0)
+    invariant(E.round >= 0)
+    invariant(ghost('nH') + ghost('nE') >= E.electionProfile.nSeats)
+    variant(2 * ghost('nH') + ghost('nP'))
+
+
+
 # cfer / cfer-batch: count() is NOT under contract.  An attempt with the same counter-level contract generated 393 obligations in
 # ~5 min; the surplus loop (every pending surplus transferred inside one `for c in C.pending()` with a nested ballot sweep) leaves
 # 30 of them undecided (weight sites, variant, pending=>quota on two paths).  Not claimed; covered by the bounded stand-ins only.
